@@ -3,6 +3,7 @@ package verifsim
 import (
 	"context"
 	"fmt"
+	"math"
 	"sort"
 	"strings"
 	"testing/synctest"
@@ -276,7 +277,12 @@ func (r *c09Run) exec(i int, s Step) {
 			lib = pickKey(r.libs, s.D)
 		}
 		rating := float64(s.B) + 0.5
-		id, errs := r.gqlID(fmt.Sprintf(`mutation { create_Book(input: {title: "b%d", rating: %v, author: %s, library: %s}) { _docID } }`, r.seq, rating, lit(author), lit(lib)), "create_Book")
+		ratingLit := fmt.Sprint(rating)
+		if s.B == 8 {
+			// a book without rating (null): NaN in the model, no comparison holds for it and aggregates skip it
+			rating, ratingLit = math.NaN(), "null"
+		}
+		id, errs := r.gqlID(fmt.Sprintf(`mutation { create_Book(input: {title: "b%d", rating: %s, author: %s, library: %s}) { _docID } }`, r.seq, ratingLit, lit(author), lit(lib)), "create_Book")
 		if len(errs) > 0 {
 			r.res.violate("C09", "write-failed", "create-book", i, "%v", errs)
 			return
